@@ -15,6 +15,9 @@
 package main
 
 import (
+	"strings"
+	"sync/atomic"
+	"errors"
 	"bytes"
 	"encoding/hex"
 	"fmt"
@@ -71,6 +74,106 @@ func newTunnel() (*endpoint, error) {
 	return &endpoint{kind: "tunnel", s: s, send: gt.Send, inbound: gt.Inbound(), close: gt.Close, channel: ch}, nil
 }
 
+// newTunnelUDP is the same group tunnel built by the real constructor on the
+// library's own UDP socket (the monitor is the gateway at the other end of a
+// loopback datagram socket): frame sizes meet the socket's receive buffer.
+func newTunnelUDP() (*endpoint, error) {
+	s, err := memsock.NewBridge()
+	if err != nil {
+		return nil, err
+	}
+	const ch = 0x35
+	s.Handler = func(ev memsock.Event) {
+		switch ev.P.Service {
+		case spec.SvcConnReq:
+			s.Deliver(&knxnet.ConnRes{Channel: ch, Control: knxnet.HostInfo{Protocol: knxnet.UDP4}})
+		case spec.SvcTunnelReq:
+			s.Deliver(&knxnet.TunnelRes{Channel: ev.P.Channel, SeqNumber: ev.P.Seq})
+		}
+	}
+	gt, err := knx.NewGroupTunnel(s.BridgeAddr(), knx.TunnelConfig{ResendInterval: 20 * time.Millisecond, HeartbeatInterval: 10 * time.Minute, ResponseTimeout: 2 * time.Second})
+	if err != nil {
+		s.CloseBridge()
+		return nil, err
+	}
+	return &endpoint{kind: "tunnel-udp", s: s, send: gt.Send, inbound: gt.Inbound(), close: func() { gt.Close(); s.CloseBridge() }, channel: ch}, nil
+}
+
+// lengthSweep: group writes with every payload length 1..254 must surface with
+// their payload intact (the largest make the largest frames a tunnel carries).
+func lengthSweep(e *endpoint, rng *rand.Rand) bool {
+	for l := 1; l <= 254; l++ {
+		c := gen.LData(rng, spec.McLDataInd)
+		c.Info = nil
+		c.Ctrl2 |= 0x80
+		d := gen.Bytes(rng, l)
+		d[0] &= 0x3f
+		c.TPDU = spec.TPDU{Cmd: 2, Data: d}
+		if !checkInbound(e, c, fmt.Sprintf("group write with %d payload octets", l)) {
+			return false
+		}
+		atomic.AddInt64(&nLengths, 1)
+	}
+	return true
+}
+
+// ackFailure: the transmission of an acknowledgement fails once (ENOBUFS-like);
+// the telegram has been accepted all the same and must surface, the gateway's
+// repetition of the request is acknowledged and must not surface again.
+func ackFailure(e *endpoint, rng *rand.Rand, n int) bool {
+	var failNext atomic.Bool
+	e.s.SendFault = func(p spec.Parsed, raw []byte) memsock.Fault {
+		if p.Service == spec.SvcTunnelRes && failNext.CompareAndSwap(true, false) {
+			return memsock.Fault{Fail: errors.New("injected: no buffer space available")}
+		}
+		return memsock.Fault{}
+	}
+	defer func() { e.s.SendFault = nil }()
+	for i := 0; i < n; i++ {
+		c := gen.LData(rng, spec.McLDataInd)
+		c.Ctrl2 |= 0x80
+		c.TPDU = spec.TPDU{Cmd: uint8(i % 3), Data: []byte{byte(i & 0x3f), byte(i >> 6), 0x77}}
+		failNext.Store(true)
+		if !checkInbound(e, c, "group indication whose acknowledgement fails to go out") {
+			return false
+		}
+		// the gateway saw no acknowledgement and repeats the request (same number)
+		e.seq--
+		from := e.s.Len()
+		if !e.inject(spec.EncodeCemi(nil, c)) {
+			return false
+		}
+		atomic.AddInt64(&nAckFailures, 1)
+		mc, mev := markerCemi()
+		if !e.inject(spec.EncodeCemi(nil, mc)) {
+			return false
+		}
+		got, open, to := readEvent(e, 5*time.Second)
+		if to || !open {
+			r.Violate("inbound.marker-missing", map[string]string{"client": e.kind}, nil, "[%s] after a repeated request the following marker indication did not surface", e.kind)
+			return false
+		}
+		if !sameEvent(got, mev) {
+			r.Violate("inbound.duplicate", map[string]string{"client": e.kind}, map[string]interface{}{"surfaced": fmt.Sprintf("%+v", got)}, "[%s] the repetition of an already accepted request surfaced a second group event %+v", e.kind, got)
+			readEvent(e, time.Second)
+		}
+		// the repetition itself must have been acknowledged
+		acked := false
+		for _, x := range e.s.LogFrom(from) {
+			if x.Kind == memsock.Tx && !x.Err && x.P.Service == spec.SvcTunnelRes && x.P.Seq == e.seq-2 {
+				acked = true
+			}
+		}
+		if !acked {
+			r.Violate("inbound.repetition-unacknowledged", map[string]string{"client": e.kind}, nil, "[%s] the repetition of request number %d was not acknowledged", e.kind, e.seq-2)
+			return false
+		}
+	}
+	return true
+}
+
+var nLengths, nAckFailures int64
+
 func newRouter() (*endpoint, error) {
 	s := memsock.New("udp")
 	gr, err := knx.NewGroupRouterOnSocket(s, knx.RouterConfig{PostSendPauseDuration: 0})
@@ -83,7 +186,7 @@ func newRouter() (*endpoint, error) {
 // inject hands a cEMI message (bytes) to the client as the wire would.
 func (e *endpoint) inject(cemiBytes []byte) bool {
 	var frame []byte
-	if e.kind == "tunnel" {
+	if strings.HasPrefix(e.kind, "tunnel") {
 		frame = spec.Header(spec.SvcTunnelReq, append([]byte{4, e.channel, e.seq, 0}, cemiBytes...))
 		e.seq++
 	} else {
@@ -92,7 +195,7 @@ func (e *endpoint) inject(cemiBytes []byte) bool {
 	var svc knxnet.Service
 	if _, err := knxnet.Unpack(frame, &svc); err != nil {
 		// the frame is one the decoder rejects: it could never reach the client
-		if e.kind == "tunnel" {
+		if strings.HasPrefix(e.kind, "tunnel") {
 			e.seq--
 		}
 		return false
@@ -358,6 +461,14 @@ func run(rr *mon.Run) {
 	r = rr
 	r.Rule("outbound: commands {read, response, write} x payload lengths 0..254 (every length) x first bytes 0..255 (every value) x sampled sources/destinations through GroupTunnel and GroupRouter, each emitted frame parsed independently; inbound: full product {7 message kinds + unsupported code} x {group, individual} x APCI 0..15 x {data, control unit} (+ random L_Data.ind frames), surfaced iff L_Data.ind and group and data unit and APCI < 3, decided with marker frames; end to end A -> wire -> B. Distinct = distinct cEMI byte strings per direction and client (hash set)")
 	rng := rand.New(rand.NewSource(r.Seed()*613 + 9))
+	// loopback slice first: the real constructor and UDP socket, every payload length inbound
+	if e, err := newTunnelUDP(); err != nil {
+		r.Inconclusive("tunnel over the real UDP socket: " + err.Error())
+	} else {
+		r.Crumb("C12 tunnel-udp length sweep")
+		lengthSweep(e, rng)
+		e.close()
+	}
 	for _, mk := range []func() (*endpoint, error){newTunnel, newRouter} {
 		e, err := mk()
 		if err != nil {
@@ -416,6 +527,12 @@ func run(rr *mon.Run) {
 					}
 				}
 			}
+		}
+		if ok {
+			ok = lengthSweep(e, rng)
+		}
+		if e.kind == "tunnel" && ok {
+			ok = ackFailure(e, rng, r.Pick(40, 2000))
 		}
 		// a gateway-initiated disconnect and reconnect in the middle: group events
 		// must keep surfacing on the new connection (numbering restarts at 0)
@@ -528,6 +645,8 @@ func run(rr *mon.Run) {
 	realGroupRouter(rng, r.Pick(300, 20000))
 	r.Observe("outbound_events", nOut)
 	r.Observe("inbound_frames", nIn)
+	r.Observe("inbound_payload_lengths_swept", nLengths)
+	r.Observe("acknowledgement_transmission_failures_injected", nAckFailures)
 	r.Observe("inbound_expected_to_surface", nSurfaced)
 	r.Observe("inbound_expected_filtered_with_marker", nFiltered)
 	r.Observe("end_to_end_events", nE2E)
